@@ -204,12 +204,14 @@ def run(ctx):  # noqa: C901, PLR0912, PLR0915
     for fi in api_funcs:
         by_cls.setdefault(fi.cls.qual, []).append(fi)
 
-    def _mutates_directly(n):
+    def _mutates_directly(n, g_):
         st = n.stmt
         if n.kind == 'stmt' and isinstance(st, (ast.Assign, ast.Delete)):
-            tg = st.targets
-            return any(isinstance(t, ast.Subscript) and '_updates' in unparse(t.value) and unparse(t.value).startswith('self.')
-                       for t in tg)
+            for t in st.targets:
+                if isinstance(t, ast.Subscript):
+                    tv = g_.origin_text(n, t.value)     # `d = self._state_updates; d[k] = ..` counts
+                    if '_updates' in tv and tv.startswith('self.'):
+                        return True
         return False
     summary = {}
 
@@ -223,7 +225,7 @@ def run(ctx):  # noqa: C901, PLR0912, PLR0915
         if f is None or f.module.name != TR or depth > 3:
             return summary[key]
         gf = cfg_of(f)
-        mut = any(_mutates_directly(n) for n in gf.real_nodes())
+        mut = any(_mutates_directly(n, gf) for n in gf.real_nodes())
         # `raise NotImplementedError` marks a case the author states cannot happen (exhaustive classification): not a rejection
         guards = [frozenset(gf.facts_symbolic(n)) for n in gf.nodes if n.kind == 'raisestmt' and n.stmt.exc is not None
                   and 'NotImplementedError' not in unparse(n.stmt.exc)]
@@ -243,7 +245,7 @@ def run(ctx):  # noqa: C901, PLR0912, PLR0915
             g7 = cfg_of(fi)
             muts, raisers = [], []
             for n in g7.real_nodes():
-                if _mutates_directly(n):
+                if _mutates_directly(n, g7):
                     muts.append((n, 'store'))
                 for c in n.calls():
                     if isinstance(c.func, ast.Attribute) and unparse(c.func.value) == 'self':
